@@ -36,7 +36,7 @@ type Checker struct {
 	Obls  []Obligation
 	Notes []string
 
-	floors map[string]int // rule -> minimum number of obligations
+	floors map[string]int  // rule -> minimum number of obligations
 	mute   map[string]bool // rules whose obligations are not recorded (shared rule code run for another property)
 	seen   map[string]bool
 }
